@@ -338,4 +338,29 @@ CHECKS = {
                    "reported as inconclusive. A kill whose call ordinal does not come up in that run is counted as 'kill-missed', not judged.",
         assumptions=["values are JSON-serialisable (they arrive by JSON-RPC)", "kill = SIGKILL of the process; no power loss (page cache survives)"],
     ),
+    "C11": dict(
+        pkg=".", hdir="root", test="TestVerif_C11", wal=True,
+        quick=dict(shards=32, checks=60, timeout=900),
+        thorough=dict(shards=32, checks=1500, timeout=3400),
+        technique="stateful property-based testing (rapid) of the real SourceControl + Start/CoreLoop: watchdog with goroutine-dump quiescence test, progress counter, enter/exit monitor around block processing and request application",
+        rule="rapid-generated request histories (requests before start, 2-14 while running, 1-4 after the source stopped or ended itself, optionally a "
+             "restart and more) from one client against a real SourceControl: ConfigureTriggers (indices in/out of range/negative/empty, all trigger kinds "
+             "incl. edge-multi), ConfigurePulseLengths (valid, non-positive, too small), ConfigureProjectorsBasis (valid, wrong shape, mismatched, "
+             "truncated/short/empty/huge-header/garbage blobs, bad base64, bad channel), WriteControl (START x type subsets, STOP, PAUSE, UNPAUSE[ label], "
+             "malformed, unusable path), SetExperimentStateLabel(WaitForError), WriteComment/ReadComment, CoupleErrToFB/FBToErr, Add/DeleteGroupTriggerCoupling "
+             "(incl. nil map, self, out of range), StopTriggerCoupling, StoreRawDataBlock (N > 0, 0, < 0, huge), ConfigureMixFraction, MapServer.Load "
+             "(matching / wrong pixel count / missing file) and Unload, SendAllStatus; I/O faults: run directory removed, comment.txt pre-created as a "
+             "directory; sources: a scripted source on the real AnySource (blocks every 4 ms; ends itself with an error block or a closed channel), "
+             "Triangle, SimPulse (monitored or started through SourceControl.Start) and ErroringSource; block processing artificially takes 0/0.2/1.5 ms. "
+             "non-trivial = >= 1 invalid-argument request AND a request after self-termination or with an I/O fault; distinct = FNV-64 of the case",
+        level_text="Every request must return (a call still sitting in the same channel operation of runLaterIfActive after 10 s and again 1.5 s later is a "
+                   "violation, a merely slow one is inconclusive); queued requests must return an error when no source is running (also after the source "
+                   "ended itself), requests with invalid arguments or a failed I/O step must return an error, plain valid ones must succeed; a panic "
+                   "anywhere kills the shard and is reported from the write-ahead log; after every request a further data block must be processed within "
+                   "8 s and the source must still run; the monitor must never see a request method and block processing active at the same time.",
+        level_note="Requests are issued in-process on SourceControl's exported RPC methods, one at a time, exactly as the JSON-RPC server does for one "
+                   "connection after decoding (the TCP/JSON layer itself is the library's). The fire-and-forget state-label mode is excluded as the "
+                   "property says. A connection of a channel to itself and deletions of non-existent connections are documented no-ops and not judged.",
+        assumptions=["one client: requests do not overlap each other", "no Stop while a Start call is executing"],
+    ),
 }
